@@ -8,7 +8,7 @@
        simplify_opt ora t = Some r -> tc r = Some ty /\ eval I r = eval I t
    Proved so far for the fragment [in_frag] (proofs/SimplifierSem_proofs.v, [ok_node]):
      stage 1: And Or Not Implies Iff Ite Equals, symbols, the five kinds of constants, function
-     applications, ForAll / Exists (array VALUES are not in the fragment yet);
+     applications, ForAll / Exists;
      stage 2: Plus Times Minus LE LT ToReal Div on Int and Real, and Pow with a non-negative
      integer constant exponent (the exponents for which Sem.vpow is defined);
      stage 3: bit-vector not neg and or xor add sub mul udiv urem sdiv srem shl lshr ashr concat
@@ -16,7 +16,25 @@
      bit-string rules go through core/PyPrimsLemmas.v: bin_str / int_of_bits / slices against
      div and mod by powers of two).  For zext / sext [in_frag] asks that the payload width is
      the argument width plus the extension (what the constructor computes);
-     (not yet: strings; arrays).
+     stage 4: Select Store ArrayValue and Equals on arrays (proofs/SimplifierSemArr_proofs.v).
+     Array VALUES of the fragment are in the canonical form of the constructor Array() and of the
+     model ([arr_node_ok]): the index sort is not an array sort and not Real, the element sort
+     (the sort of the default) is not Real, the indices are constants of Bool / Int / BV / String
+     sort, strictly increasing in the model's order of index constants (Ctors.const_key; the
+     implementation keeps a dict, the model and the harness keep this order), and no assigned
+     value is syntactically the default.  (Real is excluded because the rules compare constants
+     syntactically, which is right only for Real constants in lowest terms, and [in_frag] does
+     not ask that of Real constants.)  Array-sorted symbols, Select, Store, Ite, Equals on arrays
+     are unrestricted;
+     stage 5: the string operators length concat contains indexof replace substr prefixof
+     suffixof to_int from_int charat (proofs/SimplifierSemStr_proofs.v), with the arities of the
+     constructors (concat: at least two arguments).  Python's find / replace / startswith /
+     endswith / slices / int() / str() as modelled in core/PyPrims.v are related to Sem.v's
+     sfind sreplace sprefix ssuffix ssub sto_int sfrom_int there (str(): the model prints 16
+     digits per long division, Sem.v one digit at a time; both are the decimal digits).
+   Every operator of the term language is now in the fragment; what [in_frag] leaves out: Pow
+   with a negative, non-integer or non-constant exponent, and array values outside the canonical
+   form above.
    [in_frag] also asks what the constructors guarantee and tc does not check: arities, BV
    constants in range with positive width, Real constants with positive denominator, and that
    the sorts of symbols, bound variables and function results are inhabited first-order sorts
